@@ -873,7 +873,15 @@ struct Search
             if(sig != 0)
             {
               c.count("transitions");
-              if(sig == 1007)
+              if(child_only)
+              {
+                // undefined behaviour shows up as a wrong layout, wrong values or a crash depending on heap contents: one key
+                std::string detail = sig == 1007 ? std::string(shm()).substr(0, 1200) : "signal/exit " + std::to_string(sig);
+                for(char& ch : detail) if(ch == '\n' || ch == '\t') ch = ' ';
+                fail_once(opn + ": wrong result or crash" + qual(M), detail);
+                c.outcome("violation");
+              }
+              else if(sig == 1007)
               {
                 std::istringstream in{std::string(shm())}; std::string line;
                 while(std::getline(in, line)) { size_t t = line.find('\t'); if(t != std::string::npos) fail_once(line.substr(0, t), line.substr(t + 1)); }
